@@ -285,6 +285,55 @@ def c_side(repo, impl):
     return wr, protos, info, rows
 
 
+def goto_term_tests(repo):
+    """the condition under which cg_goto_fc1 / cg_gorel_fc1 (cg_ftoc.c) treat their label as "no pair" (n = 0), disjunct by
+    disjunct.  -> {name: (cmp, blank, empty, text)}; a disjunct that is not recognised makes cmp CmpUnknown."""
+    raw = open(os.path.join(repo, "src", "cg_ftoc.c"), errors="replace").read()
+    raw = re.sub(r"/\*.*?\*/", " ", raw, flags=re.S)
+    res = {}
+    for fn_ in ("cg_goto_fc1", "cg_gorel_fc1"):
+        m = re.search(r"\bint\s+%s\s*\([^)]*\)\s*\{" % fn_, raw)
+        if not m:
+            res[fn_] = ("CmpUnknown", False, False, "function not found"); continue
+        i, d = m.end(), 1
+        while i < len(raw) and d:
+            d += {"{": 1, "}": -1}.get(raw[i], 0); i += 1
+        body = raw[m.end():i]
+        c = re.search(r"if\s*\(((?:[^()]|\([^()]*\))*)\)\s*\{\s*n\s*=\s*0\s*;\s*\}\s*else\s*\{\s*n\s*=\s*1\s*;", body)
+        if not c:
+            res[fn_] = ("CmpUnknown", False, False, "n = 0 / n = 1 decision not found"); continue
+        cond = re.sub(r"\s+", "", c.group(1).replace("' '", "'<blank>'"))
+        blank = empty = False
+        pre, exact, unknown = set(), set(), []
+        for dj in cond.split("||"):
+            if dj == "c_label[0][0]=='<blank>'":
+                blank = True
+            elif dj in ("c_label[0][0]==0", "c_label[0][0]=='\\0'", "!c_label[0][0]", "*c_label[0]==0", "!*c_label[0]", "0==c_label[0][0]"):
+                empty = True
+            else:
+                m3 = re.fullmatch(r'(?:0==)?strncmp\(c_label\[0\],"(end|END)",3\)(?:==0)?', dj)
+                me = re.fullmatch(r'(?:0==)?strcmp\((?:c_label\[0\],"(end|END)"|"(end|END)",c_label\[0\])\)(?:==0)?', dj)
+                neg3 = re.fullmatch(r'!strncmp\(c_label\[0\],"(end|END)",3\)', dj)
+                nege = re.fullmatch(r'!strcmp\((?:c_label\[0\],"(end|END)"|"(end|END)",c_label\[0\])\)', dj)
+                if (m3 and ("0==" in dj or "==0" in dj)) or neg3:
+                    pre.add((m3 or neg3).group(1))
+                elif (me and ("0==" in dj or "==0" in dj)) or nege:
+                    g = me or nege
+                    exact.add(g.group(1) or g.group(2))
+                else:
+                    unknown.append(dj)
+        if unknown or (pre and exact):
+            cmp_ = "CmpUnknown"
+        elif pre == {"end", "END"}:
+            cmp_ = "CmpPrefix3"
+        elif exact == {"end", "END"}:
+            cmp_ = "CmpExact"
+        else:
+            cmp_ = "CmpUnknown"
+        res[fn_] = (cmp_, blank, empty, cond)
+    return res
+
+
 def q(s):
     return '"' + str(s).replace('"', "'") + '"'
 
@@ -350,12 +399,20 @@ def translate(repo, impl, implf, pp_text=None):
         rows.append("AUnparsed %s %s" % (q("cgns_f.F90"), q(pr[:200])))
     lines = ["(* GENERATED on every run by translators/c20f_iface.py from the current src/cgns_f.F90 (preprocessed with the",
              "   flags of the Fortran-enabled build), src/cg_ftoc.c, src/cgio_ftoc.c, cgnslib.h, cgns_io.h.  Never edit. *)",
-             "From Coq Require Import ZArith List String.", "From CgnsV Require Import Ftoc FtocAbi.", "Import ListNotations.",
+             "From Coq Require Import ZArith List String.", "From CgnsV Require Import Ftoc FtocAbi FtocGoto.", "Import ListNotations.",
              "Local Open Scope string_scope.", "Local Open Scope Z_scope.", "", "Definition abi_table : list arow := ["]
     lines.append(";\n".join("  " + r for r in rows))
     lines.append("].")
     lines.append("")
     lines.append("Definition n_arows : Z := %d." % len(rows))
+    lines.append("")
+    tt = goto_term_tests(repo)
+    info["goto_terminator_tests"] = {k: {"cmp": v[0], "blank_test": v[1], "empty_test": v[2], "condition": v[3]} for k, v in tt.items()}
+    for k, v in tt.items():
+        lines.append("(* %s: n = 0 when  %s  *)" % (k, v[3].replace("*)", "* )")))
+        lines.append("Definition %s_term : termtest := {| t_cmp := %s; t_blank := %s; t_empty := %s |}." % (
+            k[3:], v[0], "true" if v[1] else "false", "true" if v[2] else "false"))
+    lines.append("Definition goto_terms : list termtest := [goto_fc1_term; gorel_fc1_term].")
     out = "\n".join(lines) + "\n"
     info["rows"] = len(rows)
     return out, info, ifaces, modprocs, wr, protos
